@@ -35,9 +35,9 @@ func gangHistory(c *Ctx, d *coreDrv) {
 	emit := func(op map[string]interface{}) { d.applyWithTap(op, s.absorb) }
 	// real asks are k-keys; deny some of them on some nodes so that replacements go to another node
 	deny := []string{}
-	for i := 0; i < 10; i++ {
-		if c.chance(0.6) {
-			deny = append(deny, fmt.Sprintf("r%d|n%d", 1+c.pick(12), 1+c.pick(3)))
+	for i := 1; i <= 14; i++ {
+		if c.chance(0.45) {
+			deny = append(deny, fmt.Sprintf("r%d|n%d", i, 1+c.pick(3)))
 		}
 	}
 	d.apply(map[string]interface{}{"op": "reset", "config": gangConfig, "deny": strings.Join(deny, " ")})
@@ -193,8 +193,8 @@ func gangHistory(c *Ctx, d *coreDrv) {
 			}
 			ref := g.phKeys[c.pick(len(g.phKeys))]
 			r := g.phRes[ref].Clone()
-			switch c.pick(6) {
-			case 0: // smaller
+			switch c.pick(8) {
+			case 0, 6, 7: // smaller
 				for t := range r.Resources {
 					if r.Resources[t] > 1 {
 						r.Resources[t]--
